@@ -8,6 +8,13 @@ def hook_commits():
     return [l.split()[0] for l in out.splitlines() if "verif hook" in l]
 
 CLAIMED = {
+ "C12": dict(
+   level="fault_enumeration",
+   text="Histories (producer chain over genesis period 3..6 with rebroadcast, pruning and purge, optional side fork) delivered to a real full node whose simulated disk journals every write/remove; every journal prefix x tear class {absent, empty, header cut, half, all-but-last-byte, complete} of the next operation is a crash image on which a brand-new node runs the real start-up (Wallet::load, ConsensusThread::on_init, delete_old_blocks on/off). Oracle: no panic; restarted tip was given to the node before the crash point; in-window spendable value equals the reference ledger at that tip; conservation equation; clean shutdown restarts at the same tip; the node adopts the next three blocks.",
+   design="§6 C12",
+   note="Trusted: journal/tear model (process death; write_value = truncate+write without fsync/rename as in RustIOHandler), reference ledgers of the producer. Quick tier enumerates the images of 100 histories (12 chunks of 24 images each); thorough 5000 histories.",
+   technique="deterministic simulation: storage-journal crash-point x torn-write enumeration with real restart path and ledger/supply/liveness oracle"),
+
  "C11": dict(
    level="exploration",
    text="Node under test (all four real processors, timer-driven bundling and mining) with an honest scripted peer and an attacker holding an authenticated or unauthenticated connection plus a second unauthenticated one: 3..25/80 moves, two thirds hostile from a 22-entry catalogue (every odd message tag, storms, second handshake with another key, announcements answered with garbage or with well-formed hostile blocks, hostile transactions, reconnect storms) interleaved with honest blocks/transactions, timer rounds and clock jumps; the system runs to quiescence after each move. Oracle: no handler panics, quiescence within the step cap, and after a hostile move the digest of tip / stored blocks / spendable set / pool / honest peer entry / its key mapping is unchanged.",
